@@ -1,7 +1,7 @@
 """C11 — stream-level check (see DESIGN.md section 6)."""
 from lib import kv
 PID = "C11"
-LEVEL = "exploration"
+LEVEL = "proof"
 CMD = "c11"
 RULE = 'streams of 1..12 blocks: all ranges 1 <= from <= to <= blocks+2 x jobs 1..8 (one third per quick run, all in thorough): output must equal the exact slice, then EOF; a listener checks that no entropy/transform event is emitted for a block outside the range. Non-trivial = every (stream, range, jobs) case.'
 
